@@ -23,7 +23,10 @@ DECIDES = ("Decided: structural facts about the four ERROR_REGEX patterns on the
 NOT_DECIDED = "exactness on every possible compiler output (needs the compilers' output grammar)."
 
 LANGS = ["java", "kotlin", "groovy", "scala"]
-PATH_ALPHABET = set(string.ascii_lowercase + string.ascii_uppercase + string.digits + "_/")
+# characters of a directory / file name the tool may be run under (TMPDIR, a checkout called hephaestus-v1.2, ...): a
+# narrower class makes the unanchored search match a *suffix* of the path, and the diagnostic is keyed to a file that
+# does not exist (found by a round-6 seed and fixed in /repo: the classes were [a-zA-Z0-9/_])
+PATH_ALPHABET = set(string.ascii_lowercase + string.ascii_uppercase + string.digits + "_/" + "-.+~@%=,")
 SEVERITY = {"java": ("error:", "after-file"), "kotlin": ("error:", "after-file"),
             "scala": ("Error:", "before-file"), "groovy": None}
 GROOVY_EXEMPT = ("groovyc prints only errors in the `file: line: message` block form matched by the pattern "
@@ -77,9 +80,13 @@ def _regex(cls, name):
     return pat, flags, R.tokens(R.parse(pat, flags))
 
 
+_NOT_VERBATIM = {}
+
+
 def _match_index(cls, meth):
     """get_filename / get_error_msg: `return match[k]` -> k"""
     f = cls.lookup(meth)
+    _NOT_VERBATIM.pop((cls.qualname, meth), None)
     if f is None:
         raise AnalysisError("%s.%s missing" % (cls.qualname, meth), anchor=cls.qualname + "." + meth)
     rets = [n for n in iter_own_nodes(f.node) if isinstance(n, ast.Return)]
@@ -88,6 +95,12 @@ def _match_index(cls, meth):
             rets[0].value.value.id == f.params[1] and \
             isinstance(const_value(rets[0].value.slice), int):
         return f, const_value(rets[0].value.slice)
+    # not verbatim (`return os.path.realpath(match[0])`, ...): the group is still identified; R1 reports the rewriting
+    subs = [n for r in rets for n in ast.walk(r) if isinstance(n, ast.Subscript) and isinstance(n.value, ast.Name) and
+            n.value.id == f.params[1] and isinstance(const_value(n.slice), int)]
+    if len(rets) == 1 and len(subs) == 1:
+        _NOT_VERBATIM[(cls.qualname, meth)] = src(rets[0].value)
+        return f, const_value(subs[0].slice)
     raise AnalysisError("%s.%s is not `return match[k]`" % (cls.qualname, meth),
                         anchor=cls.qualname + "." + meth)
 
@@ -126,11 +139,18 @@ def r1_file_group(repo):
             alpha_ok = len(head) == 1 and head[0][0] == "set" and head[0][3] > 1000 and \
                 all(R.accepts(head[0][1], c) for c in PATH_ALPHABET)
             missing = sorted(c for c in PATH_ALPHABET if not (head and head[0][0] == "set" and R.accepts(head[0][1], c)))
-            ok = dot_ok and alpha_ok
+            one_line = bool(head) and head[0][0] == "set" and not R.accepts(head[0][1], "\n")
+            ok = dot_ok and alpha_ok and one_line
             msg = ("file group of %s ERROR_REGEX must be <path chars>+ '.' '%s' (extension of %s): "
-                   "trailing literal %r dot_ok=%s, path part accepts [a-zA-Z0-9_/] = %s (missing %s)"
-                   % (comp.name, ext, fname, lits, dot_ok, alpha_ok, "".join(missing)))
+                   "trailing literal %r dot_ok=%s, path part accepts [a-zA-Z0-9_/] and -.+~@%%=, = %s (missing %s), "
+                   "stays on one line = %s"
+                   % (comp.name, ext, fname, lits, dot_ok, alpha_ok, "".join(missing), one_line))
         obs.append(Ob("C14-R1", "%s:file-group" % lang, _w(comp), ok, msg, facts))
+        rewritten = _NOT_VERBATIM.get((comp.qualname, "get_filename"))
+        obs.append(Ob("C14-R1", "%s:get_filename-returns-the-matched-path-verbatim" % lang, _w(f), rewritten is None,
+                      "the key of a diagnostic must be the path as the compiler printed it - that is the path the compiler "
+                      "was given, and the oracle looks it up by exact membership; a normalised path (realpath, abspath, "
+                      "basename, lower) is another string: get_filename returns `%s`" % rewritten))
         # the compiler's input glob uses the same extension (or the directory itself)
         init = comp.methods.get("__init__")
         globs = [n.value for n in iter_own_nodes(init.node) if isinstance(n, ast.Constant) and
@@ -448,15 +468,62 @@ def r7_minimal_diagnostics(repo):
     return obs
 
 
+def _only_trimmed(e, var):
+    """e is `var` wrapped in strip()/rstrip()/lstrip() calls only"""
+    while isinstance(e, ast.Call) and isinstance(e.func, ast.Attribute) and e.func.attr in ("strip", "rstrip", "lstrip") and \
+            not e.keywords and all(isinstance(a, ast.Constant) and isinstance(a.value, str) and not a.value.strip()
+                                   for a in e.args):
+        e = e.func.value
+    return isinstance(e, ast.Name) and e.id == var
+
+
+def r8_patterns_verbatim(repo):
+    """'Messages matching a user-supplied filter pattern are disregarded': the pattern the user wrote is the pattern that
+    is applied.  Between the file and `re.sub` a line may only lose surrounding white space: a case change turns `\\S`
+    into `\\s` and `Type mismatch` into a pattern that matches nothing, an escape makes it a literal."""
+    obs = []
+    f = repo.fn("src.utils.path2set")
+    comps = [n for n in iter_own_nodes(f.node) if isinstance(n, (ast.SetComp, ast.ListComp, ast.GeneratorExp))]
+    adds = [k for k in calls_in(f.node) if call_name(k) in ("add", "append")]
+    ok, found = False, "no comprehension / loop over the lines"
+    if len(comps) == 1 and not adds:
+        c = comps[0]
+        var = src(c.generators[0].target)
+        ifs = [i for g in c.generators for i in g.ifs]
+        ifs_ok = all(_only_trimmed(i, var) or (isinstance(i, ast.UnaryOp) and False) for i in ifs)
+        ok = len(c.generators) == 1 and _only_trimmed(c.elt, var) and ifs_ok
+        found = "element `%s`%s" % (src(c.elt), (" if " + " if ".join(src(i) for i in ifs)) if ifs else "")
+    elif adds and not comps:
+        loops = [n for n in iter_own_nodes(f.node) if isinstance(n, ast.For)]
+        if len(loops) == 1:
+            var = src(loops[0].target)
+            ok = all(len(k.args) == 1 and _only_trimmed(resolve_local(f.node, k.args[0], k), var) for k in adds)
+            found = "adds %s" % [src(k) for k in adds]
+    obs.append(Ob("C14-R8", "path2set:lines-only-trimmed", _w(f), ok,
+                  "every line of the pattern file must reach the set as written, at most stripped of surrounding white "
+                  "space; found %s" % found))
+    init = repo.method("src.compilers.base.BaseCompiler", "__init__", inherited=False)
+    st = [n for n in iter_own_nodes(init.node) if isinstance(n, ast.Assign) and
+          src(n.targets[0]) == init.params[0] + ".filter_patterns"]
+    ok = len(st) == 1 and all(isinstance(x, (ast.Name, ast.Constant, ast.BoolOp, ast.Or, ast.Load, ast.List, ast.IfExp,
+                                           ast.Compare, ast.Is, ast.IsNot, ast.Tuple, ast.Set))
+                              for x in ast.walk(st[0].value))
+    obs.append(Ob("C14-R8", "BaseCompiler.__init__:patterns-stored-as-given", _w(init), ok,
+                  "self.filter_patterns must be the constructor's argument (or an empty default): %s"
+                  % [src(s_.value) for s_ in st]))
+    return obs
+
+
 def rules():
     return [
-        RuleSpec("C14-R1", "file group: returned by get_filename, extension, path alphabet", 8, r1_file_group),
+        RuleSpec("C14-R1", "file group: returned by get_filename, extension, path alphabet", 12, r1_file_group),
         RuleSpec("C14-R2", "mandatory severity literal (warnings/notes cannot match)", 4, r2_severity),
         RuleSpec("C14-R3", "message group distinct from file group", 4, r3_message_group),
         RuleSpec("C14-R4", "order of operations in analyze_compiler_output / check_oracle", 9, r4_order),
         RuleSpec("C14-R5", "oracle key = path the compiler is given", 11, r5_lookup_key),
         RuleSpec("C14-R6", "crash pattern: unanchored search for the stack-trace marker", 5, r6_crash_pattern),
         RuleSpec("C14-R7", "mandatory part of each pattern admits the compiler's minimal diagnostics", 5, r7_minimal_diagnostics),
+        RuleSpec("C14-R8", "filter patterns are applied as the user wrote them", 2, r8_patterns_verbatim),
     ]
 
 
